@@ -270,7 +270,7 @@ class Battery(object):
         for name in ("c08", "c09", "c16", "c18", "c19"):
             if name in self.checks:
                 getattr(self, "check_" + name)(W, st, None, "running")
-        if "c16" in self.checks and gen_running(W.root) and outer is W.frames[0].pyframe:
+        if "c16" in self.checks and outer is W.frames[0].pyframe:
             # the root task is running and we are inside it: extract(root task)
             st2 = stackscope.extract(W.root)
             self.check_c16(W, st2, W.root, "running_root")
@@ -587,3 +587,164 @@ def expr_equal(a, b):
     except SyntaxError:
         return False
     return ast.dump(ta) == ast.dump(tb)
+
+
+# ----------------------------------------------------------------------
+# C20: fallback (referents) analysis is a sound ordered over-approximation
+def c20_relation(W, rec, R, where):
+    """R: reported contexts in referents mode; compare with the shadow T of rec."""
+    T = rec.shadow
+    t_active = [e for e in T if e.state != "exiting"]
+    t_exiting = [e for e in T if e.state == "exiting"]
+    r_active = [c for c in R if not c.is_exiting]
+    r_exiting = [c for c in R if c.is_exiting]
+    got = ctx_summary(W, R)
+    exp = shadow_summary(W, rec)
+    detail = {"reported": got, "shadow": exp, "frame": repr(rec), "entering": mgr_name(W, rec.entering), "where": where}
+    # every truly active manager appears, in order, with right obj / is_async
+    j = 0
+    allowed_extra = []
+    if rec.entering is not None:
+        allowed_extra.append(rec.entering)
+    for e in t_exiting:
+        allowed_extra.append(e.mgr)
+    extras = []
+    for c in r_active:
+        if j < len(t_active) and c.obj is t_active[j].mgr:
+            if bool(c.is_async) != bool(t_active[j].is_async):
+                raise Violation("c20_async_flag", "%s: %s reported with is_async=%r: reported %r shadow %r" % (where, mgr_name(W, c.obj), c.is_async, got, exp), detail)
+            j += 1
+        else:
+            extras.append(c)
+    if j < len(t_active):
+        raise Violation(
+            "c20_active_manager_missing",
+            "%s: frame %s: active manager %s missing or out of order: reported %r, shadow %r" % (where, rec, mgr_name(W, t_active[j].mgr), got, exp),
+            detail,
+        )
+    for c in extras:
+        if not any(c.obj is a for a in allowed_extra):
+            raise Violation(
+                "c20_unjustified_extra",
+                "%s: frame %s: extra entry %s is neither being entered nor exited: reported %r, shadow %r, entering %s"
+                % (where, rec, mgr_name(W, c.obj), got, exp, mgr_name(W, rec.entering)),
+                detail,
+            )
+    if len(r_exiting) != (1 if t_exiting else 0):
+        raise Violation(
+            "c20_exiting_flag",
+            "%s: frame %s: %d is_exiting entries reported, exit in progress: %r (reported %r, shadow %r)" % (where, rec, len(r_exiting), bool(t_exiting), got, exp),
+            detail,
+        )
+    if r_exiting:
+        if R[-1] is not r_exiting[0]:
+            raise Violation("c20_exiting_not_last", "%s: exiting entry is not last: %r" % (where, got), detail)
+        if bool(r_exiting[0].is_async) != bool(t_exiting[0].is_async):
+            raise Violation("c20_exiting_async_flag", "%s: exiting entry is_async=%r, shadow %r" % (where, r_exiting[0].is_async, exp), detail)
+        if r_exiting[0].obj is not None and r_exiting[0].obj is not t_exiting[0].mgr:
+            raise Violation("c20_exiting_obj", "%s: exiting obj %s, shadow %r" % (where, mgr_name(W, r_exiting[0].obj), exp), detail)
+    return len(extras)
+
+
+class C20Battery(Battery):
+    """(a) referents mode at every suspension; (b) an exception injected at the k-th
+    call of each step of the trickery analysis, for every k of the fault-free run."""
+
+    STEPS = ("analyze_with_blocks", "inspect_frame", "currently_exiting_context")
+
+    def on_suspend(self, W, root, kind):
+        import stackscope
+        from stackscope import _lowlevel as ll
+
+        ctx = self.ctx
+        self.nobs += 1
+        ctx.stat("observations")
+        mode = self.ctx.params.get("mode", "off")
+        if mode == "off":
+            ll.set_trickery_enabled(False)
+            try:
+                with warnings.catch_warnings(record=True) as wl:
+                    warnings.simplefilter("always")
+                    st = stackscope.extract(root)
+            finally:
+                ll.set_trickery_enabled(None)
+            if st.error is not None:
+                raise Violation("c20_error", "extract(root).error=%r with trickery disabled" % (st.error,), {})
+            if [w for w in wl if issubclass(w.category, stackscope.InspectionWarning)]:
+                raise Violation("c20_warning_in_referents_mode", "InspectionWarning with trickery disabled: %s" % str(wl[0].message)[:200], {})
+            for i, f in enumerate(walk_frames(st)):
+                rec = W.rec_of(f.pyframe)
+                if rec is None:
+                    continue
+                if any(c.start_line is not None for c in f.contexts):
+                    raise Violation("c20_mode_not_applied", "start_line present although trickery is disabled", {})
+                n = c20_relation(W, rec, f.contexts, "referents")
+                ctx.stat("c20_frames_checked")
+                if n:
+                    ctx.stat("c20_extras_seen", n)
+                ctx.cover(("c20", PY, len(rec.shadow), n, bool(rec.shadow and rec.shadow[-1].state == "exiting"), rec.entering is not None))
+                ctx.log("c20", rec.id, tuple(ctx_summary(W, f.contexts)))
+            return st
+        # mode == "fault": count calls of each step in a fault-free extraction
+        # (after auto-detection has run its own self-test through the same functions)
+        ll._check_trickery_available()
+        counts = {}
+        orig = dict((name, getattr(ll, name)) for name in self.STEPS)
+
+        def counting(name):
+            def fn(*a, **k):
+                counts[name] = counts.get(name, 0) + 1
+                return orig[name](*a, **k)
+
+            return fn
+
+        for name in self.STEPS:
+            setattr(ll, name, counting(name))
+        try:
+            st0 = stackscope.extract(root)
+        finally:
+            for name in self.STEPS:
+                setattr(ll, name, orig[name])
+        total = sum(counts.values())
+        # every (step, k) of this suspension: complete single-fault enumeration
+        for name in self.STEPS:
+            for k in range(counts.get(name, 0)):
+                seen = [0]
+                injected = []
+
+                def faulty(*a, **kw):
+                    i = seen[0]
+                    seen[0] += 1
+                    if i == k:
+                        e = RuntimeError("injected fault in %s call %d" % (name, k))
+                        injected.append(e)
+                        raise e
+                    return orig[name](*a, **kw)
+
+                setattr(ll, name, faulty)
+                try:
+                    with warnings.catch_warnings(record=True) as wl:
+                        warnings.simplefilter("always")
+                        try:
+                            st = stackscope.extract(root)
+                        except Exception as e:
+                            raise Violation("c20_fault_escaped", "exception escaped extract() when %s call %d raised: %r" % (name, k, e), {"step": name, "k": k})
+                finally:
+                    setattr(ll, name, orig[name])
+                if not injected:
+                    continue
+                ctx.fault("trickery_step_raises:" + name)
+                iw = [w for w in wl if issubclass(w.category, stackscope.InspectionWarning)]
+                if not iw:
+                    raise Violation("c20_fault_without_warning", "%s call %d raised but no InspectionWarning was emitted" % (name, k), {"step": name, "k": k})
+                if st.error is not None:
+                    raise Violation("c20_fault_recorded_as_error", "analysis failure became Stack.error=%r instead of a warning only" % (st.error,), {"step": name})
+                if len(st.frames) != len(st0.frames):
+                    raise Violation("c20_fault_changed_frames", "frames differ after an analysis fault", {"step": name})
+                for f in walk_frames(st):
+                    rec = W.rec_of(f.pyframe)
+                    if rec is not None:
+                        c20_relation(W, rec, f.contexts, "fault:%s#%d" % (name, k))
+                ctx.cover(("c20fault", PY, name, min(k, 6), min(total, 12)))
+        ctx.log("c20f", total)
+        return st0
